@@ -24,7 +24,7 @@ theorem sexAdjust_is_source (isXX : Bool) (cls : CClass) (flat v : Rat) :
   cases isXX <;> cases cls <;> simp <;> first | rfl | ring
 
 /-- `expect_flat_log2`: every value of the model's flat profile IS the source expression on the bin's masks -/
-theorem expectFlat_is_source (hapX : Bool) (par : Option String) (t : List CBin) :
+theorem expectFlat_is_source_ref (hapX : Bool) (par : Option String) (t : List CBin) :
     expectFlat hapX par t = t.map (fun b =>
       src_expect_flat_log2 hapX
         (classOf ((t.head?.map (·.chrom)).getD "") par b.chrom b.s b.e == .x)
